@@ -279,6 +279,38 @@ fn codec_cases() -> Vec<Case> {
             }),
         });
     }
+    // ... nor does it disturb what was queued before it
+    for n in [LIMIT + 1, 2 * LIMIT] {
+        out.push(Case {
+            name: format!("a small frame, a Message of {n} bytes (refused), another small frame, encoded into one buffer"),
+            props: "C05 C11",
+            run: Box::new(move || {
+                let mut dst = BytesMut::new();
+                let (a, b) = (msg(7, true), msg(9, false));
+                MessageCodec.encode(a.clone(), &mut dst).map_err(|e| format!("{e:?}"))?;
+                let before = dst.len();
+                if MessageCodec.encode(msg(n, false), &mut dst).is_ok() {
+                    return Err("an over-limit frame was accepted".into());
+                }
+                if dst.len() != before {
+                    return Err(format!("refusing a frame changed the {before} bytes already queued in the buffer to {} bytes", dst.len()));
+                }
+                MessageCodec.encode(b.clone(), &mut dst).map_err(|e| format!("{e:?}"))?;
+                let mut got = Vec::new();
+                loop {
+                    match MessageCodec.decode(&mut dst) {
+                        Ok(Some(f)) => got.push(f),
+                        Ok(None) => break,
+                        Err(e) => return Err(format!("the stream around a refused frame does not decode: {e:?}")),
+                    }
+                }
+                if got != vec![a.clone(), b.clone()] {
+                    return Err(format!("decoded {} frame(s) around a refused frame, expected the 2 that were accepted", got.len()));
+                }
+                Ok(())
+            }),
+        });
+    }
     // the decoder refuses an over-limit prefix as soon as it has the header, without buffering
     for over in [LIMIT as u64 + 1, 1 << 32, u64::MAX] {
         out.push(Case {
@@ -350,6 +382,30 @@ fn batch_cases() -> Vec<Case> {
                 b2.put_u64(l);
                 b2.extend_from_slice(&vec![0u8; tail]);
                 blobs.push(b2.to_vec());
+            }
+        }
+    }
+    // honest frames of every kind whose body was cut short by a few bytes (the outer length says what is really there)
+    for (name, f) in frames().into_iter().filter(|(n, _)| !n.contains("10485") && !n.contains("65535") && !n.contains("65536")) {
+        if let Ok(enc) = encode(&f) {
+            let body = enc[9..].to_vec();
+            for cut in 1..=12usize {
+                if body.len() >= cut {
+                    let b = body[..body.len() - cut].to_vec();
+                    let ty = enc[8];
+                    out.push(Case {
+                        name: format!("{name} with its last {cut} body byte(s) missing"),
+                        props: "C06",
+                        run: Box::new(move || {
+                            let mut buf = BytesMut::new();
+                            buf.put_u64(b.len() as u64);
+                            buf.put_u8(ty);
+                            buf.extend_from_slice(&b);
+                            let _ = MessageCodec.decode(&mut buf);
+                            Ok(())
+                        }),
+                    });
+                }
             }
         }
     }
